@@ -41,7 +41,7 @@ func c09Gen(t *rapid.T) c04Case {
 	for i := 0; i < ne; i++ {
 		ev := c04Event{
 			AtMS:   rapid.SampledFrom(times).Draw(t, "at"),
-			Kind:   rapid.SampledFrom([]string{"reset", "reset", "transient", "transient", "split", "dialdown", "abort", "move", "metamove", "merge"}).Draw(t, "kind"),
+			Kind:   rapid.SampledFrom([]string{"reset", "reset", "transient", "transient", "split", "dialdown", "abort", "move", "metamove", "merge", "probekill", "probekill"}).Draw(t, "kind"),
 			Region: rapid.IntRange(0, 11).Draw(t, "region"),
 			Server: rapid.IntRange(0, 3).Draw(t, "server"),
 		}
